@@ -120,6 +120,8 @@ func checkC17(tier string) *Report {
 		w0.OpRecv("T(hyp1)", TransferSpec{"channel-1", denomUSDC, "777", orb, w0.FwdHyp(1), nil}.Pkt()),
 		w0.OpRecv("T(internal,uother)", TransferSpec{"channel-0", denomOTH, "42", orb, w0.FwdInternal(w0.Bob), nil}.Pkt()),
 		w0.OpRecv("T(internal,ch1)", TransferSpec{"channel-1", denomUSDC, "500", orb, w0.FwdInternal(w0.Bob), nil}.Pkt()),
+		// the same route as T(internal,uother) in ANOTHER denomination: two statistics entries that differ only in the denom
+		w0.OpRecv("T(internal,ch0,uusdc)", TransferSpec{"channel-0", denomUSDC, "43", orb, w0.FwdInternal(w0.Bob), nil}.Pkt()),
 		w0.OpRecv("T(refused)", TransferSpec{"channel-0", denomUSDC, "2000000", orb, w0.FwdCCTP(0), nil}.Pkt()),
 		OpEnv("seed-stats-top"), w0.OpDeposit(w0.Orb, denomUSDC, 5),
 		OpEnv("bulk-pause-150"), OpEnv("bulk-stats-130"), // collections larger than one default query page (100 entries)
